@@ -474,6 +474,8 @@ func (*compiler).claimOrCopy#2 [C05]
 func (*compiler).exitScope [C05]
   requires c != nil && c.cbb != nil && scp != nil
   callsite freeNonPrimitive requires !v.isRef && !v.protected && arg1 == v.val && arg2 == v.typ
+  // ... and every such variable is released
+  loop 0 each freeNonPrimitive when !v.isRef && !v.protected
   callsite freeTemporaries requires arg1 == scp && !arg2
   ensures result == old(scp.enclosing)
 
@@ -539,6 +541,8 @@ func (*compiler).VisitCastExpr [C02, C01]
 func (*compiler).exitFuncScope [C05]
   requires c != nil && c.cbb != nil && c.cfscp != nil && fun != nil
   callsite freeNonPrimitive requires !v.isRef && arg1 == v.val && arg2 == v.typ
+  // without the -O2 copy elision every by-value parameter is released
+  loop 0 each freeNonPrimitive when !v.isRef && c.optimizationLevel < 2
   callsite freeTemporaries requires arg1 == c.cfscp && arg2
 // return from nested scopes: every scope between the current one and the function scope releases its variables
 // (never references) and, forced, its temporaries; then the function scope itself
@@ -547,6 +551,9 @@ func (*compiler).VisitReturnStmt$1 [C05]
   // (releasing emits calls only: it does not rebind the compiler's blocks and scopes)
   preserves compiler.compiler
   callsite freeNonPrimitive requires !Var.isRef && arg1 == Var.val && arg2 == Var.typ
+  // every variable that is not a reference is released - protected ones too: nobody else will do it after a return
+  loop 1 each freeNonPrimitive when !Var.isRef
+  loop 0 each freeTemporaries when true
   callsite freeTemporaries requires arg1 == scp && arg2
   callsite exitFuncScope requires arg1 == s.Func
 @*/
